@@ -41,8 +41,7 @@ theorem put_generated (bufp len : BitVec 64) (r w : BitVec 32) (d : BitVec 8) (m
     (ringbuf_put bufp len r w d mem).rb_writei = (if wrapBV len w = r then w else wrapBV len w) := by
   unfold wfBV at hwf
   unfold ringbuf_put wrapBV
-  ackermann mem
-  bv_decide (config := { timeout := 300 })
+  first | bv_decide (config := { timeout := 300 }) | (ackermann mem; bv_decide (config := { timeout := 300 }))
 
 theorem put_generated_mem (bufp len : BitVec 64) (r w : BitVec 32) (d : BitVec 8) (mem : Mem) (a : BitVec 64) (hwf : wfBV len r w = true) :
     (ringbuf_put bufp len r w d mem).mem a =
@@ -50,8 +49,7 @@ theorem put_generated_mem (bufp len : BitVec 64) (r w : BitVec 32) (d : BitVec 8
   unfold wfBV at hwf
   unfold ringbuf_put wrapBV
   simp only [Mem.ite_app, Mem.store_app]
-  ackermann mem
-  bv_decide (config := { timeout := 300 })
+  first | bv_decide (config := { timeout := 300 }) | (ackermann mem; bv_decide (config := { timeout := 300 }))
 
 theorem get_generated (bufp len : BitVec 64) (r w : BitVec 32) (mem : Mem) (hwf : wfBV len r w = true) :
     (ringbuf_get bufp len r w mem).ub = false ∧ (ringbuf_get bufp len r w mem).exh = false ∧
@@ -61,8 +59,7 @@ theorem get_generated (bufp len : BitVec 64) (r w : BitVec 32) (mem : Mem) (hwf 
     (ringbuf_get bufp len r w mem).rb_readi = (if r = w then r else wrapBV len r) := by
   unfold wfBV at hwf
   unfold ringbuf_get wrapBV
-  ackermann mem
-  bv_decide (config := { timeout := 300 })
+  first | bv_decide (config := { timeout := 300 }) | (ackermann mem; bv_decide (config := { timeout := 300 }))
 
 theorem get_generated_mem (bufp len : BitVec 64) (r w : BitVec 32) (mem : Mem) (a : BitVec 64) (hwf : wfBV len r w = true) :
     (ringbuf_get bufp len r w mem).mem a = mem a := by
